@@ -155,8 +155,7 @@ def rule_merges(ctx, P="C13"):
         ctx.check(kinds_seen.get(k, 0) == 1, R, ("kinds", k), b.where(h), "exactly one %s merge site" % k, "%d %s merge sites" % (kinds_seen.get(k, 0), k), nontrivial=False)
 
 
-def rule_one_outcome(ctx):
-    R = "C13/one-outcome"
+def rule_one_outcome(ctx, R="C13/one-outcome"):
     b = ctx.body(R, FN)
     if b is None:
         return
